@@ -61,7 +61,7 @@ def repo_all_files():
     return sorted(set(fs))
 
 def harness_sources():
-    infra = [os.path.join(VERIF, 'sim/core/core.c'), os.path.join(VERIF, 'sim/sched/simsched.c'), os.path.join(VERIF, 'sim/alloc/simalloc.c')]
+    infra = [os.path.join(VERIF, 'sim/core/core.c'), os.path.join(VERIF, 'sim/core/hooks.c'), os.path.join(VERIF, 'sim/sched/simsched.c'), os.path.join(VERIF, 'sim/alloc/simalloc.c')]
     infra += sorted(glob.glob(os.path.join(VERIF, 'ref/*.c')))
     harn = [os.path.join(VERIF, 'sim/main.c')] + sorted(glob.glob(os.path.join(VERIF, 'sim/scenarios/*.c'))) + sorted(glob.glob(os.path.join(VERIF, 'sim/io/*.c')))
     return infra, harn
